@@ -78,7 +78,7 @@ CLAIMED = {
              "Correspondence by oracle replay without hooks (every trial step, verdict and returned step of the real code against the model, 1e-12); the python oracle "
              "recomputes the advertised conditions from the user function and re-evaluates the preamble from the logged evaluations. Success on convex quadratics in floating point is oracle-tested (open known findings at the ends "
              "of the tolerance domain, where the acceptance interval is below floating-point resolution).",
-        note=NOTE_COMMON + "Finiteness of the step, CG_DESCENT's success cases and 'all five succeed on convex quadratics' are floating-point / convergence claims: oracle-tested, not proved."),
+        note=NOTE_COMMON + "Finiteness of the step and 'all five succeed on convex quadratics' IN FLOATING POINT are oracle-tested, not proved (the exact-arithmetic versions are theorems); the forced-bisection branch of More-Thuente (a step of about stpmax) is outside the quadratic theorem."),
     "C05": dict(
         category="proof", technique=TECH, design="DESIGN.md §4 C05",
         text="Value and gradient of the linear-penalty, quadratic-penalty and augmented-Lagrangian functions as coded equal the header formulas for any constraint "
